@@ -38,7 +38,39 @@ Inductive case :=
   | CPaa (m : nat) (p : panel) (o : option panel)
   | CISegInt (k : nat) (pfit p : panel) (o : option panel)
   | CISegArr (ivs : list (nat * nat)) (p : panel) (o : option panel)
-  | CSlide (w : nat) (p : panel) (o : option panel).
+  | CSlide (w : nat) (p : panel) (o : option panel)
+  | CRife (feats : list feat) (ivs : list (nat * nat)) (p : panel) (o : option (list series))
+  | CRowS2S (f : sfun) (p : panel) (o : option panel)
+  | CRowS2P (g : pfun) (p : panel) (o : option panel)
+  | CImpute (m : imethod) (l : oseries) (o : option oseries)
+  | CCos (cols : inst) (o : option panel)
+  | CAcf (adjusted : bool) (nlags : option nat) (z : series) (o : option panel)
+  | CAdapt (fit cols : inst) (o : option panel).
+
+(* square-root witnesses: the implementation's v is "the std" iff v >= 0 and v^2 ~ variance *)
+Definition tagged_close (m : Q * bool) (v : Q) : bool :=
+  if snd m then Qle_bool 0 v && qclose (fst m) (v * v) else qclose (fst m) v.
+Fixpoint tagged_row_close (a : list (Q * bool)) (b : series) : bool :=
+  match a, b with
+  | [], [] => true
+  | x :: a', y :: b' => tagged_close x y && tagged_row_close a' b'
+  | _, _ => false
+  end.
+Definition agree_tagged (m : res (list (list (Q * bool)))) (o : option (list series)) : bool :=
+  match m, o with
+  | Err, None => true
+  | Ok a, Some b => list_close tagged_row_close a b
+  | _, _ => false
+  end.
+Definition oq_close (a b : oq) : bool :=
+  match a, b with
+  | None, None => true
+  | Some x, Some y => qclose x y
+  | _, _ => false
+  end.
+Definition agree_oseries (m : oseries) (o : option oseries) : bool :=
+  match o with Some b => list_close oq_close m b | None => false end.
+Definition one_inst (r : res inst) : res panel := match r with Ok i => Ok [i] | Err => Err end.
 
 (* what the model says (documented function); the int interval segmenter has an open finding:
    `check` accepts the documented tiling OR the unchanged code's faithful variant (the oracle
@@ -54,19 +86,31 @@ Definition model_says (c : case) : res panel :=
   | CISegInt k pfit p _ => iseg_int k pfit p
   | CISegArr ivs p _ => iseg_arr ivs p
   | CSlide w p _ => sliding_apply w p
+  | CRowS2S f p _ => row_s2s f p
+  | CRowS2P g p _ => rows_as_panel (row_s2p g p)
+  | CCos cols _ => Ok [map (map cos_taylor) cols]
+  | CAcf adj nl z _ => one_inst (rmap (fun s => [s]) (acf adj nl z))
+  | CAdapt fit cols _ => one_inst (adapt_minmax fit cols)
+  | CRife _ _ _ _ | CImpute _ _ _ => Err   (* own output types: see check *)
   end.
 
 Definition impl_says (c : case) : option panel :=
   match c with
   | CPad _ _ _ _ o | CTrunc _ _ _ _ o | CInterp _ _ o | CTab _ o | CConcat _ o | CPaa _ _ o
-  | CISegInt _ _ _ o | CISegArr _ _ o | CSlide _ _ o => o
+  | CISegInt _ _ _ o | CISegArr _ _ o | CSlide _ _ o | CRowS2S _ _ o | CRowS2P _ _ o
+  | CCos _ o | CAcf _ _ _ o | CAdapt _ _ o => o
+  | CRife _ _ _ _ | CImpute _ _ _ => None
   end.
 
 Definition check (c : case) : bool :=
-  agree (model_says c) (impl_says c) ||
   match c with
-  | CISegInt k pfit p o => agree (iseg_int_faithful k pfit p) o
-  | _ => false
+  | CRife feats ivs p o => agree_tagged (rife_apply feats ivs p) o
+  | CImpute m l o =>
+      agree_oseries (impute m l) o ||
+      match m with IDrift => agree_oseries (impute_drift_faithful l) o | _ => false end
+  | CISegInt k pfit p o =>
+      agree (model_says c) o || agree (iseg_int_faithful k pfit p) o
+  | _ => agree (model_says c) (impl_says c)
   end.
 
 Fixpoint mism (cs : list (Z * case)) : list Z :=
